@@ -100,6 +100,7 @@ def showRes : Res → String
   | .ok _ _ => "ok"
   | .refused => "refused"
   | .params => "err:params"
+  | .badText => "err:params"
   | .badName => "err:name"
   | .notFound => "err:notfound"
   | .noFile => "err:nofile"
